@@ -1,7 +1,22 @@
 """Path state, decision replay (re-execution DFS) and obligations."""
 import hashlib
+import threading
 import time
 import z3
+
+
+def guarded_check(solver, timeout_ms, *assumptions):
+    """solver.check() with a watchdog: z3's sequence solver does not always honour its own timeout"""
+    timer = threading.Timer(timeout_ms / 1000.0 + 1.5, lambda: z3.main_ctx().interrupt())
+    timer.daemon = True
+    timer.start()
+    try:
+        return solver.check(*assumptions)
+    except z3.Z3Exception:
+        return z3.unknown
+    finally:
+        timer.cancel()
+
 from .values import SV, Loc, Unsupported, simp
 
 
@@ -131,10 +146,7 @@ class State:
         t = time.time()
         self.solver.push()
         self.solver.add(cond)
-        try:
-            r = self.solver.check()
-        except z3.Z3Exception:
-            r = z3.unknown
+        r = guarded_check(self.solver, self.x.feas_timeout_ms)
         self.solver.pop()
         self.x.feas_queries += 1
         self.x.feas_secs += time.time() - t
